@@ -61,10 +61,11 @@ extern "C" void vp_init() {
 }
 
 int vp_case(Choice& c, Report& rep) {
-  const int Fs = cu::RATES[4 - c.irange(0, 4)];
+  static const int FSW[5] = {4, 3, 3, 1, 1};            // 48, 24, 16, 12, 8 kHz
+  const int Fs = cu::RATES[4 - c.weighted(FSW, 5)];
   const int ch = 1 + c.irange(0, 1);
   const int app = cu::APPS[(c.irange(0, 2) + 1) % 3];
-  const int complexity = 10 - c.irange(0, 10);
+  const int complexity = c.chance(150) ? 10 - c.irange(0, 3) : 10 - c.irange(0, 10);
   const int dtx = c.chance(56) ? 0 : 1;
   const int vbrmode = c.irange(0, 2);                 // 0 cvbr, 1 cbr, 2 vbr
   const int dur = c05::gen_dur(c);
@@ -75,23 +76,37 @@ int vp_case(Choice& c, Report& rep) {
   if (c.chance(80)) signal = c.boolean() ? OPUS_SIGNAL_VOICE : OPUS_SIGNAL_MUSIC;
   if (c.chance(40)) bandwidth = cu::BANDWIDTHS[c.irange(0, 4)];
   if (c.chance(30)) { fec = 1 + c.irange(0, 1); loss = c.irange(0, 30); }
-  // budget floor (see header)
-  const opus_int32 floor_b = (opus_int32)std::max<int64_t>((24ll * Fs + fs - 1) / fs, cu::DUR400[dur] > 8 ? 2400 : 0);
+  // buffer: mostly ample; a small-buffer class.  Known finding C20F1: with VBR the SILK layer can overrun a small
+  // buffer (seen up to 80 bytes for 60 ms), the encoder then falls back to a 2-byte "TOC + empty frame" packet
+  // although DTX is off (and OPUS_GET_IN_DTX reads 0 on it), which contradicts E5/E3 as worded.  The class is
+  // avoided by construction: small buffers are only drawn with VBR off or when the SILK layer cannot be used
+  // (forced CELT, restricted-lowdelay, frames shorter than 10 ms).
+  int M = 1500;
+  if (c.chance(30)) M = c.irange(3, 60);
+  const bool silk_possible = force_mode != cu::MODE_CELT && app != OPUS_APPLICATION_RESTRICTED_LOWDELAY && dur >= 2;
+  if (M < 1276 && vbrmode != 1 && silk_possible && rep.exclude("C20F1")) M = 1500;
+  if (frame_rate < 50 && M * frame_rate < 300) M = (300 + frame_rate - 1) / frame_rate;
+  // budget floor (see header): the requested bitrate is raised until the documented low-budget conditions are out
+  auto low_budget = [&](int64_t b) {
+    int64_t mb = M < 1276 ? M : 1276;
+    if (vbrmode == 1) { int64_t cb = c05::cbr_round_bytes(b, fs, Fs); if (cb < mb) mb = cb; }
+    return mb < 3 || b < 24 * (int64_t)frame_rate || (frame_rate < 50 && (mb * frame_rate < 300 || b < 2400));
+  };
   opus_int32 bitrate;
   bool at_floor = false;
   {
     int k = c.irange(0, 7);
     if (k == 0) bitrate = OPUS_AUTO;
-    else if (k == 1) { bitrate = std::max<opus_int32>(floor_b, 500) + c.irange(0, 3) * 100; at_floor = true; }
+    else if (k == 1) { bitrate = 500; at_floor = true; }
     else if (k == 2) bitrate = c.irange(6000, 12000) * ch;
     else if (k == 3) bitrate = c.irange(64000, 256000);
     else if (k == 4) bitrate = c.irange(3000, 8000);
     else bitrate = c.irange(12000, 48000) * ch;
-    if (bitrate != OPUS_AUTO && bitrate < floor_b) bitrate = floor_b;
-    if (bitrate != OPUS_AUTO && bitrate < 500) bitrate = 500;
+    if (bitrate != OPUS_AUTO) {
+      while (low_budget(bitrate)) bitrate += 100;
+      if (at_floor) bitrate += c.irange(0, 3) * 100;
+    }
   }
-  int M = 1500;
-  if (c.chance(30)) { M = c.irange(3, 60); if (frame_rate < 50 && M * frame_rate < 300) M = (300 + frame_rate - 1) / frame_rate; }
   static const int FAMS[5] = {sig::SPEECHLIKE, sig::MULTITONE, sig::NOISE, sig::TONE_PAIR, sig::SQUARE};
   const int family = c.pick(FAMS);
   static const double AMPS[4] = {0.5, 0.25, 0.9, 0.1};
@@ -252,13 +267,14 @@ int vp_case(Choice& c, Report& rep) {
   if (fs > Fs / 50) rep.label("long-frames");
 
   // ---- decoder clauses ---------------------------------------------------------
+  size_t worst_at = 0;     // sample position of the loudest window found by the last call
   auto win_max_rms = [&](const std::vector<float>& o, size_t s0, size_t s1) {
     const size_t w = (size_t)Fs / 100; double worst = 0;
-    for (size_t s = s0; s + w <= s1; s += w) { double e = 0; for (size_t k = s * ch; k < (s + w) * ch; k++) e += (double)o[k] * o[k]; worst = std::max(worst, std::sqrt(e / (w * ch))); }
+    for (size_t s = s0; s + w <= s1; s += w) { double e = 0; for (size_t k = s * ch; k < (s + w) * ch; k++) e += (double)o[k] * o[k]; double r = std::sqrt(e / (w * ch)); if (r > worst) { worst = r; worst_at = s; } }
     return worst;
   };
   auto power = [&](const std::vector<float>& o, size_t s0, size_t s1) { double e = 0; for (size_t k = s0 * ch; k < s1 * ch; k++) e += (double)o[k] * o[k]; return s1 > s0 ? e / ((s1 - s0) * ch) : 0.0; };
-  double gap_worst[2] = {0, 0}; bool gap_seen = false;
+  double gap_worst[2] = {0, 0}; bool gap_seen = false; int gap_worst_ms = -1; bool gap_worst_prev_dtx = false;
   double rec_lo[2] = {1e30, 1e30}, rec_hi[2] = {0, 0}; bool rec_seen = false;
   const std::vector<float>* outs[2] = {&outA, &outB};
   const size_t skip = (size_t)Fs / 10;
@@ -266,7 +282,7 @@ int vp_case(Choice& c, Report& rep) {
     const size_t s0 = (size_t)seg_start[k] * fs, s1 = (size_t)seg_start[k + 1] * fs;
     if (!segs[k].active && s1 - s0 >= (size_t)Fs / 10) {
       gap_seen = true;
-      for (int d = 0; d < 2; d++) gap_worst[d] = std::max(gap_worst[d], win_max_rms(*outs[d], s0 + (size_t)Fs / 25, s1));
+      for (int d = 0; d < 2; d++) { double r = win_max_rms(*outs[d], s0 + (size_t)Fs / 25, s1); if (r > gap_worst[d]) { gap_worst[d] = r; if (d == 0) { gap_worst_ms = (int)((worst_at - s0) * 1000 / Fs); gap_worst_prev_dtx = seg_start[k] > 0 && plen[seg_start[k] - 1] <= 2; } } }
     }
     if (segs[k].active && k >= 2 && s1 - s0 >= 3 * (size_t)Fs / 10 && (size_t)segs[0].frames * fs >= 2 * (size_t)Fs / 5 && segs[k - 1].frames > 0) {
       const size_t b0 = 0, b1 = (size_t)segs[0].frames * fs;
@@ -288,8 +304,8 @@ int vp_case(Choice& c, Report& rep) {
   if (g_calib_out) {
     FILE* f = fopen(g_calib_out, "a");
     if (f) {
-      fprintf(f, "{\"gap_seen\":%d,\"gapA\":%.4e,\"gapB\":%.4e,\"rec_seen\":%d,\"recA_lo\":%.5f,\"recA_hi\":%.5f,\"recB_lo\":%.5f,\"recB_hi\":%.5f,\"Fs\":%d,\"ch\":%d,\"dur\":%g,\"bitrate\":%d,\"cx\":%d,\"dtx\":%d,\"ndtx\":%d,\"fmode\":%d,\"app\":%d,\"sig\":\"%s\",\"amp\":%g,\"silk\":%d,\"hybrid\":%d,\"celt\":%d,\"vbrmode\":%d,\"M\":%d,\"sched\":\"%s\"}\n",
-              gap_seen, gap_worst[0], gap_worst[1], rec_seen, rec_seen ? rec_lo[0] : 1.0, rec_seen ? rec_hi[0] : 1.0, rec_seen ? rec_lo[1] : 1.0, rec_seen ? rec_hi[1] : 1.0,
+      fprintf(f, "{\"gap_seen\":%d,\"gap_ms\":%d,\"prev_dtx\":%d,\"gapA\":%.4e,\"gapB\":%.4e,\"rec_seen\":%d,\"recA_lo\":%.5f,\"recA_hi\":%.5f,\"recB_lo\":%.5f,\"recB_hi\":%.5f,\"Fs\":%d,\"ch\":%d,\"dur\":%g,\"bitrate\":%d,\"cx\":%d,\"dtx\":%d,\"ndtx\":%d,\"fmode\":%d,\"app\":%d,\"sig\":\"%s\",\"amp\":%g,\"silk\":%d,\"hybrid\":%d,\"celt\":%d,\"vbrmode\":%d,\"M\":%d,\"sched\":\"%s\"}\n",
+              gap_seen, gap_worst_ms, (int)gap_worst_prev_dtx, gap_worst[0], gap_worst[1], rec_seen, rec_seen ? rec_lo[0] : 1.0, rec_seen ? rec_hi[0] : 1.0, rec_seen ? rec_lo[1] : 1.0, rec_seen ? rec_hi[1] : 1.0,
               Fs, ch, cu::DUR400[dur] * 2.5, bitrate, complexity, dtx, ndtx, force_mode, app, sig::FAMILY_NAME[family], amp, n_mode[0], n_mode[1], n_mode[2], vbrmode, M, sched.c_str());
       fclose(f);
     }
